@@ -44,11 +44,16 @@ RULE = ("fmtcat_sep catalogue: all 14 valid I/L/T/C combinations uniform across 
         "non-trivial = accepted input; distinct = distinct op lines")
 TECHNIQUE = ("Lean 4 theorems about the skip-iterator / parse_number model (what peek skips, separator-free inputs, strip for the "
              "I+L+T+C class) + metamorphic check of the implementation (strip, position classifier, insert, separator-free counterpart)")
-LEVEL_TEXT = ("Proved in Lean on the model: a skip iterator skips only separator bytes and yields the other bytes in order; on inputs "
-              "without the separator byte the model treats a format and its separator-free counterpart identically when the integer "
-              "and fraction components both carry separator flags (negation witnesses for the other classes); strip for the all-flags "
-              "class. The general statements are false on the unchanged tree (see findings); the implementation is checked directly by "
-              "the metamorphic relations R1-R4 on exhaustive short and structured long inputs.")
+LEVEL_TEXT = ("Proved in Lean on the model (Model.Iter + Model.ParseNumber, all inputs): (1) every skip iterator's peek moves only over "
+              "separator bytes and parse_digits yields exactly the non-separator bytes of the region it consumed, in order; (2) "
+              "sep_free_same: on inputs without the separator byte a separator format whose integer AND fraction components carry "
+              "separator flags gives the same result (value, count, error kind, index; complete and partial parser, many-digit re-parse "
+              "and 8-digit fast path included) as its separator-free counterpart; the unrestricted statement is refuted by kernel-evaluated "
+              "witnesses for the integer-only / fraction-only / exponent-only / no-flag classes; (3) strip_preserves: for the class where "
+              "every component has I+L+T+C (no base prefix/suffix, STANDARD required digits) an input the complete parser accepts as a "
+              "number is accepted as the same number after deleting all separators; refuted in general by the I+T+C class witness. "
+              "R2 / R3 are not theorems (witnesses for I+T+C and I+L+C only). The implementation is checked directly by the metamorphic "
+              "relations R1-R4 on exhaustive short and structured long inputs; on the unchanged tree this check reports violation classes.")
 LEVEL_NOTE = ("Trusted: Lean kernel; rustc; harness; the model is tied to the code by correspondence only. The relations are judged on "
               "implementation results, bounded by the input generators described under `rule`.")
 
